@@ -294,6 +294,21 @@ def binclude_cases():
                 yield c
 
 
+def binclude_big_cases():
+    """BINCLUDE of files around the 256-byte copy chunk and across the 64 KiB record limit (68000: more than 64 KiB of address space),
+    at start addresses that put the record limit inside the included file"""
+    for flen in (255, 256, 257, 513, 65535, 65536, 65537, 70000):
+        for start, before in ((0x1000, 1), (0x1000, 600), (0xfff0, 3)):
+            if flen < 60000 and before != 1:
+                continue
+            data = bytes((i * 7 + 3) & 0xff for i in range(flen))
+            hand = ['\tdc.b ' + ','.join(str(b) for b in data[i:i + 32]) for i in range(0, flen, 32)]
+            pre = ['\tpadding off', '\torg $%x' % start, '\tdc.b ' + ','.join(['$ee'] * min(before, 16))] + (['\tdc.b [%d]$ee' % (before - 16)] if before > 16 else [])
+            c = {'prog': ['\tcpu 68000'] + pre + ['\tbinclude "big.dat"', '\tdc.b $dd'], 'hand': ['\tcpu 68000'] + pre + hand + ['\tdc.b $dd'], 'tag': 'binclude/record-limit'}
+            c['files'] = {'big.dat': data.decode('latin-1')}
+            yield c
+
+
 def sideeffect_cases():
     S = [
         # predefined symbols changed in a body are read after it
@@ -325,7 +340,7 @@ def subspaces(tier):
             ('d:nesting-pairs', nesting_cases(2))]
     if not q:
         subs.append(('d:nesting-triples', nesting_cases(3)))
-    subs += [('e:binclude', list(binclude_cases())), ('f:side-effects-in-bodies', list(sideeffect_cases()))]
+    subs += [('e:binclude', list(binclude_cases()) + list(binclude_big_cases())), ('f:side-effects-in-bodies', list(sideeffect_cases()))]
     return subs
 
 
